@@ -264,6 +264,10 @@ where
     let mut some = "nofin";
     let mut r: Vec<Value> = vec![];
     let mut left: Option<I> = None;
+    // how many items the cursor holds before the finishing call, and how many of them that call
+    // hands to the caller's closure
+    let pre_fin = it.len();
+    let handed = std::cell::Cell::new(0usize);
     match fin {
         "nth" => {
             match call(ctx, || it.nth(j)) {
@@ -283,6 +287,7 @@ where
             match call(ctx, || {
                 it.find(|_x| {
                     let _s = ledger::Suspend::new();
+                    handed.set(handed.get() + 1);
                     ledger::maybe_panic('g', 0, 0);
                     let hit = idx == j;
                     idx += 1;
@@ -306,6 +311,7 @@ where
             let mut idx = 0usize;
             let mut pred = |_x: I::Item| {
                 let _s = ledger::Suspend::new();
+                handed.set(handed.get() + 1);
                 ledger::maybe_panic('g', 0, 0);
                 let hit = idx == j;
                 idx += 1;
@@ -364,6 +370,24 @@ where
             after = l.0;
             if l.1 != (l.0, Some(l.0)) {
                 ctx.note(props, format!("size_hint {:?} is not exact (len() = {}) after {fin}", l.1, l.0));
+            }
+            // every item handed to the closure has left the cursor - also when the closure panicked
+            // there ("each entry exactly once": it must not come out a second time)
+            // (a panic may also come from the destructor of the part of a pair that a projecting cursor
+            //  discards while fetching the next item: then one more item has left than was handed over)
+            let gone = pre_fin.saturating_sub(l.0);
+            if matches!(fin, "find" | "any" | "all" | "position") && gone != handed.get() && !(some == "panic" && gone == handed.get() + 1) {
+                // (after a panic of the closure this is exception safety of the cursor: C04 as well)
+                let pr: &'static str = if some != "panic" {
+                    props
+                } else {
+                    match props {
+                        "C09" => "C04,C09",
+                        "C10" => "C04,C10",
+                        _ => "C04,C09,C10",
+                    }
+                };
+                ctx.note(pr, format!("{fin}() handed {} item(s) to its closure (outcome {some}) but the cursor went from {pre_fin} to {} items", handed.get(), l.0));
             }
             if fin != "none" && l.0 == 0 {
                 for _ in 0..2 {
@@ -1435,8 +1459,35 @@ fn fmt_map<const N: usize>(m: &Map<Key, Val, N>, style: &str, ctx: &mut Ctx) -> 
     if sink.overflow || (sink.as_str() != expect && sink.as_str() != alt) {
         ctx.note("C19", format!("Map {style} rendering is {:?}, expected {:?}", sink.as_str(), expect));
     }
+    // a sink that is too small: whatever it refuses, the call must not report success with
+    // anything but the complete rendering in the sink
+    let full = sink.as_str().to_string();
+    for limit in short_limits(full.len()) {
+        let mut small = StackSink::bounded(limit);
+        let r = match style {
+            "debug" => call(ctx, || write!(small, "{:?}", m)),
+            "alt" => call(ctx, || write!(small, "{:#?}", m)),
+            "debug_w" => call(ctx, || write!(small, "{:<14?}", m)),
+            "display_w" => call(ctx, || write!(small, "{:>40}", m)),
+            "display_alt" => call(ctx, || write!(small, "{:#}", m)),
+            _ => call(ctx, || write!(small, "{}", m)),
+        };
+        if r == Some(Ok(())) && small.as_str() != full {
+            ctx.note("C19", format!("Map {style} into a sink of {limit} bytes reports success but the sink holds {:?}, not {:?}", small.as_str(), full));
+            break;
+        }
+    }
     let ents: Vec<Value> = seq.iter().map(|(k, v)| ctx.je(k, v)).collect();
     json!(["ents", ents])
+}
+
+/// sink sizes below the size of a complete rendering (all of them when it is short)
+fn short_limits(full: usize) -> Vec<usize> {
+    if full <= 96 {
+        (0..full).collect()
+    } else {
+        (0..full).step_by(full / 48 + 1).chain(full.saturating_sub(3)..full).collect()
+    }
 }
 
 // ------------------------------------------------------------------ Set --
@@ -1940,6 +1991,22 @@ pub fn exec_set<const N: usize>(cage: &mut Cage<Set<Key, N>>, op: &Value, ctx: &
             };
             if sink.overflow || (sink.as_str() != expect && sink.as_str() != alt) {
                 ctx.note("C19", format!("Set {style} rendering is {:?}, expected {:?}", sink.as_str(), expect));
+            }
+            let full = sink.as_str().to_string();
+            for limit in short_limits(full.len()) {
+                let mut small = StackSink::bounded(limit);
+                let r = match style {
+                    "debug" => call(ctx, || write!(small, "{:?}", m)),
+                    "alt" => call(ctx, || write!(small, "{:#?}", m)),
+                    "debug_w" => call(ctx, || write!(small, "{:<14?}", m)),
+                    "display_w" => call(ctx, || write!(small, "{:>40}", m)),
+                    "display_alt" => call(ctx, || write!(small, "{:#}", m)),
+                    _ => call(ctx, || write!(small, "{}", m)),
+                };
+                if r == Some(Ok(())) && small.as_str() != full {
+                    ctx.note("C19", format!("Set {style} into a sink of {limit} bytes reports success but the sink holds {:?}, not {:?}", small.as_str(), full));
+                    break;
+                }
             }
             let ents: Vec<Value> = seq.iter().map(|k| ctx.je_set(k)).collect();
             json!(["ents", ents])
